@@ -134,6 +134,11 @@ def build_record(spec):
         if sideload == "twin-sub":
             subs.append(SubRegionAnnotation(6, 141, "first", TOOL, {}, circular_origin=wrap))
             subs.append(SubRegionAnnotation(6, 141, "second", TOOL, {"k": ["v"]}, circular_origin=wrap))
+        if sideload == "two-subs":
+            # two subregions far apart: two regions, the later one holding subregion number 2
+            subs.append(SubRegionAnnotation(6, 75, "left", TOOL, {}, circular_origin=wrap))
+            subs.append(SubRegionAnnotation(147, 213, "right", TOOL, {"k": ["v"]}, circular_origin=wrap))
+            protos.append(ProtoclusterAnnotation(150, 210, "sideprod", TOOL, {}, 3, 3, circular_origin=wrap))
         if sideload == "origin-sub" and circular:
             subs.append(SubRegionAnnotation(204, 36, "over origin", TOOL, {}, circular_origin=wrap))
         SideloadedResults(rec.id, subs, protos).add_to_record(rec)
@@ -264,14 +269,14 @@ def specs(tier):
             if layout in CIRCULAR_ONLY and not circ:
                 continue
             for rules in (None, "single", "twins", "mixed", "separate"):
-                for sideload in (None, "sub", "proto", "both", "twin-sub", "origin-sub"):
+                for sideload in (None, "sub", "proto", "both", "twin-sub", "two-subs", "origin-sub"):
                     if sideload == "origin-sub" and not circ:
                         continue
                     if rules is None and sideload is None:
                         continue
                     for extras in extra_sets:
                         if tier == "quick" and len(extras) > 0 and (rules, sideload) not in (("mixed", None), ("twins", "both"), ("single", "sub"),
-                                                                                                 (None, "both"), ("separate", "origin-sub")):
+                                                                                                 (None, "both"), ("separate", "origin-sub"), (None, "two-subs")):
                             continue
                         out.append({"circ": circ, "layout": layout, "rules": rules, "sideload": sideload, "extras": extras})
     return out
